@@ -10,6 +10,9 @@ def main():
     from bronzebeard import asm
     name = os.environ.get('BBV_FAIL_FUNC')
     kind = os.environ.get('BBV_FAIL_KIND', 'asm')
+    if name and not hasattr(asm, name):
+        print('BBV-NOFUNC %s' % name, file=sys.stderr)
+        name = None
     if name:
         orig = getattr(asm, name)
 
